@@ -1,0 +1,76 @@
+//go:build verif
+
+package xmss
+
+import "github.com/theQRL/go-qrllib/misc"
+
+// Read-only views of unexported state and aliases of unexported functions for the verification
+// harness in /verif. Compiled only with `-tags verif`; adds no behaviour to the library.
+
+type VerifTreeHash struct {
+	H, NextIdx, StackUsage uint32
+	Completed              uint8
+	Node                   []uint8
+}
+
+type VerifSnapshot struct {
+	SK          []uint8
+	Stack       []uint8
+	StackOffset uint32
+	StackLevels []uint8
+	Auth        []uint8
+	Keep        []uint8
+	TreeHash    []VerifTreeHash
+	Retain      []uint8
+	NextLeaf    uint32
+}
+
+func cp(b []uint8) []uint8 { return append([]uint8(nil), b...) }
+
+// VerifSnapshotOf returns a deep copy of the complete signer state.
+func VerifSnapshotOf(x *XMSS) VerifSnapshot {
+	s := VerifSnapshot{
+		SK:          cp(x.sk),
+		Stack:       cp(x.bdsState.stack),
+		StackOffset: x.bdsState.stackOffset,
+		StackLevels: cp(x.bdsState.stackLevels),
+		Auth:        cp(x.bdsState.auth),
+		Keep:        cp(x.bdsState.keep),
+		Retain:      cp(x.bdsState.retain),
+		NextLeaf:    x.bdsState.nextLeaf,
+	}
+	for _, t := range x.bdsState.treeHash {
+		s.TreeHash = append(s.TreeHash, VerifTreeHash{t.h, t.nextIdx, t.stackUsage, t.completed, cp(t.node)})
+	}
+	return s
+}
+
+// VerifLeaf computes the leaf (L-tree root of the WOTS public key) at index idx.
+func VerifLeaf(hf HashFunction, h uint32, skSeed, pubSeed []uint8, idx uint32) []uint8 {
+	params := NewXMSSParams(WOTSParamN, h, WOTSParamW, WOTSParamK)
+	var otsAddr, lTreeAddr [8]uint32
+	misc.SetType(&otsAddr, 0)
+	misc.SetType(&lTreeAddr, 1)
+	misc.SetLTreeAddr(&lTreeAddr, idx)
+	misc.SetOTSAddr(&otsAddr, idx)
+	leaf := make([]uint8, 32)
+	genLeafWOTS(hf, leaf, skSeed, params, pubSeed, &lTreeAddr, &otsAddr)
+	return leaf
+}
+
+// VerifHashH computes the inner tree node at (height+1, index) from its two children.
+func VerifHashH(hf HashFunction, left, right, pubSeed []uint8, height, index uint32) []uint8 {
+	var nodeAddr [8]uint32
+	misc.SetType(&nodeAddr, 2)
+	misc.SetTreeHeight(&nodeAddr, height)
+	misc.SetTreeIndex(&nodeAddr, index)
+	in := append(cp(left), right...)
+	out := make([]uint8, 32)
+	hashH(hf, out, in, pubSeed, &nodeAddr, 32)
+	return out
+}
+
+func VerifWOTSParams(n, w uint32) (len1, len2, length, logW, keySize uint32) {
+	p := NewWOTSParams(n, w)
+	return p.len1, p.len2, p.len, p.logW, p.keySize
+}
